@@ -47,25 +47,41 @@ def classify(rv, rs, allow_stack=True):
 
 
 def _compile_one(job):
-    cid, src, args, w, s, unchecked, fuel = job
+    key, (src, w, s, unchecked) = job
     try:
-        return dump_ast.case(cid, src, args, w=w, s=s, unchecked=unchecked, fuel=fuel), None
+        asm, ast_ = dump_ast.compile_both(src, w=w, s=s, unchecked=unchecked)
+        return key, (asm, ast_), None
     except Exception as e:
-        return None, (cid, '%s: %s' % (type(e).__name__, e))
+        return key, None, '%s: %s' % (type(e).__name__, e)
 
 
 def compile_cases(jobs, workers=None):
-    """jobs: (id, src, args, w, s, unchecked, fuel) -> (cases, rejected)"""
+    """jobs: (id, src, args, w, s, unchecked, fuel) -> (cases, rejected); each distinct
+    (source, configuration) is compiled once"""
     workers = workers or min(16, os.cpu_count() or 4)
-    cases, rejected = [], []
-    if len(jobs) < 40:
-        results = map(_compile_one, jobs)
+    uniq = {}
+    for (cid, src, args, w, s, unchecked, fuel) in jobs:
+        uniq.setdefault((src, w, s, unchecked), None)
+    keys = list(uniq)
+    todo = [(i, k) for i, k in enumerate(keys)]
+    if len(todo) < 40:
+        results = map(_compile_one, todo)
     else:
         ex = ProcessPoolExecutor(max_workers=workers)
-        results = ex.map(_compile_one, jobs, chunksize=20)
-    for c, err in results:
-        if c is not None: cases.append(c)
-        else: rejected.append(err)
+        results = ex.map(_compile_one, todo, chunksize=20)
+    compiled, errors = {}, {}
+    for i, out, err in results:
+        if out is not None: compiled[keys[i]] = out
+        else: errors[keys[i]] = err
+    cases, rejected = [], []
+    for (cid, src, args, w, s, unchecked, fuel) in jobs:
+        k = (src, w, s, unchecked)
+        if k in compiled:
+            asm, ast_ = compiled[k]
+            opts = ['w=%d' % w, 'stackbytes=%d' % ((s + 8) * w)] + (['unchecked'] if unchecked else [])
+            cases.append(dict(id=cid, asm=asm, ast=ast_, args=list(args), fuel=fuel, opts=opts))
+        else:
+            rejected.append((cid, errors[k]))
     return cases, rejected
 
 
